@@ -398,6 +398,11 @@ func assumptionsFor(prop string, trusted []string) []string {
 	if extra, ok := propertyNotes[prop]; ok {
 		out = append(out, extra...)
 	}
+	// everything this run relied on without proving it: trusted library contracts, interface-level contracts assumed
+	// for callees reached by dynamic dispatch, axioms, named site assumptions, wiring preconditions, census exemptions
+	for _, t := range trusted {
+		out = append(out, "used unchecked in this run: "+t)
+	}
 	return out
 }
 
